@@ -11,7 +11,7 @@ ASSUMPTIONS = ["box extents independent integers in [8,48]; cutoff integer in [1
                "input map: arbitrary real voxel function (uninterpreted)", "Gaussian widths 0 (hard edge, decided exactly) and 2, 3 (Gaussian = opaque operator with range contract)"]
 OUTSIDE = ["shape of the Gaussian edge (1 inside cutoff-4*sigma-1, 0 outside cutoff+4*sigma+1, monotone): numerics of skimage.filters.gaussian",
            "[0,1] range of the band-pass gain with two different Gaussians", "linearity / shift-commutation / realness follow from the term shape Real(IFFT(FFT(x)*G)) with G independent of x (structural consequence, not re-derived numerically)"]
-WITNESS_ONLY = ['Gaussian edge profile (gain 1 inside cutoff-4*sigma-1, 0 outside cutoff+4*sigma+1; h_soft_edge): evaluated with the real skimage only on the concrete witness input of each path - these two obligations exist only in the concrete run and are never counted as discharged']
+WITNESS_ONLY = ['band-pass map = difference of the two low-pass maps over the WHOLE box (h_bandpass): compared voxel by voxel by the concrete run (the symbolic obligation states it at one symbolic frequency)', 'Gaussian edge profile (gain 1 inside cutoff-4*sigma-1, 0 outside cutoff+4*sigma+1; h_soft_edge): evaluated with the real skimage only on the concrete witness input of each path - these two obligations exist only in the concrete run and are never counted as discharged']
 BOUNDS = {"quick": {"box": "8..48 per axis symbolic"}, "thorough": {"box": "8..48 per axis symbolic"}}
 EXPECTED_EXCEPTIONS = ()
 OPTS = {"qtimeout": 30.0}
@@ -122,15 +122,23 @@ def h_complement(env, sigma=2):
     env.check("highpass_gain_in_0_1", env.and_(env.ge(gh, -1e-9 if env.mode == "conc" else 0.0), env.le(gh, 1.0 + (1e-9 if env.mode == "conc" else 0.0))))
 
 
-def h_bandpass(env, s_lp=3, s_hp=2):
+def h_bandpass(env, s_lp=3, s_hp=2, close=False):
     cm = env.module("cryomap")
     n, f, x = _setup(env)
     ro = env.integer("cut_outer", 2, 24)
     ri = env.integer("cut_inner", 1, 23)
     env.assume(env.lt(ri, ro))
+    if close:
+        # band edges one or two Fourier pixels apart, edges of different softness: the inner low-pass gain exceeds the outer
+        # one at some frequencies, so the band gain is NEGATIVE there (the difference of the two low-passes, not a clipped mask)
+        env.assume(env.and_(env.le(ro, ri + 2), env.ge(ri, 4), env.le(ro, 8), *[env.ge(v, 20) for v in n]))
     yb = cm.bandpass(x, lp_fourier_pixels=ro, hp_fourier_pixels=ri, lp_gaussian=s_lp, hp_gaussian=s_hp)
     yo = cm.lowpass(x, fourier_pixels=ro, gaussian=s_lp)
     yi = cm.lowpass(x, fourier_pixels=ri, gaussian=s_hp)
+    if env.mode == "conc":
+        # the concrete run has the whole maps: band-pass = low-pass(outer) - low-pass(inner) voxel by voxel
+        d = np.asarray(yb, dtype=float) - (np.asarray(yo, dtype=float) - np.asarray(yi, dtype=float))
+        env.check("whole_map_bandpass_is_difference_of_lowpasses", bool(np.max(np.abs(d)) <= 1e-9 * max(1.0, float(np.max(np.abs(np.asarray(x, dtype=float)))))))
     try:
         gb, go, gi = _gain(env, x, yb, f), _gain(env, x, yo, f), _gain(env, x, yi, f)
     except SkipWitness:
@@ -171,13 +179,17 @@ def h_bandpass_resolution(env, s=0, px=2.0, res_lp=8.0, res_hp=16.0):
     env.check("bandpass_by_resolution_is_difference_of_lowpasses", env.eq(gb, go - gi))
 
 
-def h_soft_edge(env, sigma=1, region="pass"):
+def h_soft_edge(env, sigma=1, region="pass", short=False):
     """Gaussian edge profile (numerics, outside the solver's reach): evaluated on the concrete witness run only.
     The solver still chooses the witness inside the region the clause talks about."""
     cm = env.module("cryomap")
     n, f, x = _setup(env)
     r = env.integer("cut", 4 * sigma + 4, 20)
-    env.assume(env.and_(*[env.ge(v, 2 * r + 8 * sigma + 4) for v in n]))
+    if short:
+        # a flat (non-cubic) map whose short axes END inside the cutoff sphere: the transfer function runs into the box faces
+        env.assume(env.and_(env.ge(n[0], 2 * r + 4), env.le(n[1], 10), env.le(n[2], 14), env.ge(r, 10)))
+    else:
+        env.assume(env.and_(*[env.ge(v, 2 * r + 8 * sigma + 4) for v in n]))
     q = _freq(env, f, n)
     d2 = sum(v * v for v in q)
     if region == "pass":
@@ -199,6 +211,16 @@ def h_soft_edge(env, sigma=1, region="pass"):
             env.check("gain_is_1_inside_cutoff_minus_4sigma_minus_1", g >= 1 - 2e-4)
         else:
             env.check("gain_is_0_outside_cutoff_plus_4sigma_plus_1", g <= 2e-4)
+        # the concrete run has the whole spectrum: every component inside cutoff-4s-1 keeps gain 1, every one beyond cutoff+4s+1 gets 0
+        X, Y = np.fft.fftn(np.asarray(x, dtype=float)), np.fft.fftn(np.asarray(y, dtype=float))
+        qq = np.meshgrid(*[np.fft.fftfreq(int(k)) * int(k) for k in n], indexing="ij")
+        rad2 = qq[0] ** 2 + qq[1] ** 2 + qq[2] ** 2
+        ok_ = np.abs(X) > 1e-6 * np.abs(X).max()
+        G = np.where(ok_, (Y / np.where(ok_, X, 1.0)).real, np.nan)
+        rr, ss = float(r), float(sigma)
+        inner, outer = ok_ & (rad2 <= (rr - 4 * ss - 1) ** 2), ok_ & (rad2 >= (rr + 4 * ss + 1) ** 2)
+        env.check("whole_spectrum_gain_1_inside", bool(inner.sum() == 0 or np.nanmin(G[inner]) >= 1 - 5e-4))
+        env.check("whole_spectrum_gain_0_outside", bool(outer.sum() == 0 or np.nanmax(np.abs(G[outer])) <= 5e-4))
 
 
 def h_resolution(env):
@@ -231,8 +253,8 @@ def h_resolution(env):
 def jobs(tier, seed):
     j = [("h_lowpass_hard", {"kind": "lowpass"}), ("h_lowpass_hard", {"kind": "highpass"}), ("h_lowpass_hard", {"kind": "lowpass", "cubic": True}),
          ("h_complement", {"sigma": 0}), ("h_complement", {"sigma": 2}), ("h_complement", {"sigma": 3}),
-         ("h_soft_edge", {"sigma": 1, "region": "pass"}), ("h_soft_edge", {"sigma": 2, "region": "pass"}), ("h_soft_edge", {"sigma": 1, "region": "stop"}),
-         ("h_bandpass", {"s_lp": 0, "s_hp": 0}), ("h_bandpass", {"s_lp": 3, "s_hp": 2}), ("h_resolution", {}),
+         ("h_soft_edge", {"sigma": 1, "region": "pass"}), ("h_soft_edge", {"sigma": 2, "region": "pass"}), ("h_soft_edge", {"sigma": 1, "region": "stop"}), ("h_soft_edge", {"sigma": 1, "region": "pass", "short": True}),
+         ("h_bandpass", {"s_lp": 0, "s_hp": 0}), ("h_bandpass", {"s_lp": 3, "s_hp": 2}), ("h_bandpass", {"s_lp": 3, "s_hp": 1, "close": True}), ("h_bandpass", {"s_lp": 0, "s_hp": 2, "close": True}), ("h_resolution", {}),
          ("h_bandpass_resolution", {"s": 0}), ("h_bandpass_resolution", {"s": 2, "px": 1.5, "res_lp": 6.0, "res_hp": 20.0})]
     if tier == "thorough":
         j += [("h_bandpass", {"s_lp": 2, "s_hp": 2}), ("h_complement", {"sigma": 1}), ("h_complement", {"sigma": 4})]
